@@ -23,7 +23,13 @@ BUDGET_S = {"quick": 38, "thorough": 400}
 EXHAUSTIVE = {"quick": False, "thorough": True}
 RULE = ("hierarchies = every C3-valid base assignment over <=4 classes in which all classes are ancestors of the "
         "class under test (1+1+4+41 shapes: chains, forks, diamonds, redundant base lists) x node kind {attr.s legacy, "
-        "attr.s(collect_by_mro=True), define, plain} x per-class ordered declarations from the pool {x, y, _z}.  thorough "
+        "attr.s(collect_by_mro=True), define, plain} x per-class ordered declarations from the pool {x, y, "
+        "_z} (in 60% of the sampled cases renamed, consistently through the hierarchy, to three names drawn "
+        "from: the tuple's own method names count / index, attribute names of Attribute itself (name, "
+        "default, validator, metadata, type, alias, inherited, init), soft keywords and look-alikes (match, "
+        "case, class_, mro, cls), private and compiler-mangled names (_x, _count, __q written in the class "
+        "body = _C<k>__q), upper case, digits, unicode, a long name; probes then also ask for count / index /"
+        " __doc__ when they are NOT fields).  thorough "
         "enumerates exhaustively: <=2 classes with all 16 ordered name subsets per class, 3 classes with the 10 ordered "
         "subsets of size <=2, 4 classes with declarations {(), (x), (y,x)} and inner kinds {legacy, mro, plain} (about 236k "
         "hierarchies), then samples the other dimensions until the time budget is used; quick enumerates <=2 classes over "
@@ -96,8 +102,10 @@ def _views(case, built, leaf):
         except AttributeError:
             by_name.append(None)
             continue
+        # the by-name view must hand back the very Attribute stored at some index; anything else reachable under
+        # that name (a tuple method, a dunder) is "not a field"
         idx = [i for i in range(len(fs)) if fs[i] is got]
-        by_name.append(idx[0] if idx else 10_000)
+        by_name.append(idx[0] if idx else None)
     obs["byName"] = by_name
     fd = attr.fields_dict(leaf)
     obs["dictKeys"] = list(fd)
@@ -618,7 +626,82 @@ def random_case(rng):
         cfg["per"][-1].pop("via", None)
     case = mk_case(classes, cfg, abs_, twins)
     case["cfg"]["info"] = info
+    if rng.random() < 0.6:
+        case = rename_case(case, pick_names(rng))
     return case
+
+
+# names a field may well have: tuple attributes, attribute names of `Attribute` itself, soft keywords and
+# keyword look-alikes, private / mangled, upper case, digits, unicode, long
+NAME_UNIVERSE = ["count", "index", "name", "default", "validator", "metadata", "type", "alias", "inherited", "init",
+                 "match", "case", "class_", "mro", "cls", "X", "a", "a1", "é", "Ω", "名", "_x", "_count", "_index",
+                 "__q", "__count", "x", "y", "_z", "a_rather_long_field_name_with_many_parts"]
+RESERVED = {"cv", "cw", "ignored", "q", "self"}
+
+
+def pick_names(rng):
+    """three names for x, y, _z whose default aliases (leading underscores stripped) are distinct"""
+    while True:
+        names = rng.sample(NAME_UNIVERSE, 3)
+        if rng.random() < 0.5:
+            names[rng.randrange(3)] = rng.choice(["count", "index"])      # names of the tuple's own methods
+        stripped = [n.lstrip("_") for n in names]
+        if len(set(stripped)) == 3 and not (set(names) | set(stripped)) & RESERVED:
+            return dict(zip(POOL, names))
+
+
+def rename_case(case, mapping):
+    """apply a renaming of the pool names throughout a case.  A `__q`-style name written in a class statement is
+    mangled by the compiler: the field is `_C<k>__q` (that is what the case says), the source says `__q`."""
+    n = len(case["classes"])
+    is_abs = case.get("abs") is not None
+
+    def new(old, k, in_body):
+        if old not in mapping:
+            return old, None
+        nm = mapping[old]
+        if nm.startswith("__"):
+            mangled = f"_C{k}{nm}"
+            return mangled, (nm if in_body and not (is_abs and k == n - 1) else None)
+        return nm, None
+
+    def ren_opts(o, old, nm):
+        if o.get("alias") and o["alias"].startswith("al_") and old in mapping:
+            return dict(o, alias="al_" + nm)
+        return o
+
+    classes = []
+    for k, c in enumerate(case["classes"]):
+        c = dict(c)
+        items = []
+        for i in c["items"]:
+            nm, src = new(i["name"], k, True)
+            i2 = dict(i, name=nm, opts=ren_opts(i["opts"], i["name"], nm))
+            if src is not None:
+                i2["srcName"] = src
+            items.append(i2)
+        c["items"] = items
+        if c["these"] is not None:
+            c["these"] = [[new(nm, k, False)[0], ren_opts(o, nm, new(nm, k, False)[0])] for nm, o in c["these"]]
+        tr = c["tr"]
+        if isinstance(tr, dict) and "drop" in tr:
+            # a transformer drops by the name the field really has in this class
+            c["tr"] = {"drop": {"n": new(tr["drop"]["n"], k, False)[0]}}
+        classes.append(c)
+    out = dict(case, classes=classes)
+    if is_abs:
+        fe, decls = case["abs"]
+        out["abs"] = [fe, [{"name": new(d["name"], n - 1, False)[0],
+                            "opts": ren_opts(d["opts"], d["name"], new(d["name"], n - 1, False)[0])} for d in decls]]
+    probes = []
+    for k in range(n):
+        for old in POOL:
+            nm = new(old, k, False)[0]
+            if nm not in probes:
+                probes.append(nm)
+    out["probes"] = probes + ["count", "index", "__doc__", "w0", "q", "cv"]
+    out["cfg"] = dict(case["cfg"], info=dict(case["cfg"].get("info", {}), names=sorted(mapping.values())))
+    return out
 
 
 def gen_cases(tier, rng):
@@ -698,6 +781,8 @@ def dist(case, obs):
         "err": "none" if not o.get("err") else f"{'leaf' if o['err'][0] == len(cs) - 1 else 'base'}:{o['err'][1]}",
         "twins": len(case["twins"]),
         "kw_only_cls": last["kwOnly"],
+        "tuple_method_field": any(f["name"] in ("count", "index") for f in o.get("fields", [])),
+        "renamed": bool(info.get("names")),
         "history_leaf": case["cfg"]["per"][-1].get("history", "none"),
         "md_kind_leaf": case["cfg"]["per"][-1].get("ck", {}).get("md", "dict"),
     }
